@@ -100,6 +100,13 @@ theorem layer_stack_adjacent (g : Geo) (hwf : LayersWF g) (pre : List Layer) (ab
 
 example : ∃ T, fromgeo Ex.geo Ex.bmap = .ok T :=
   fromgeo_succeeds Ex.geo Ex.bmap (by decide +kernel) (by decide +kernel) (by decide +kernel) (by decide +kernel) (by decide +kernel)
+-- the hypotheses of `grid_block_data` on the example: the truncated block (layer 1, column a), renamed by the map
+example : Ex.l1 ∈ Ex.geo.layers ∧ Ex.colA ∈ layerCols Ex.geo Ex.l1 ∧
+    blockName Ex.geo.convention Ex.l1.name Ex.colA.name = .ok [' ',' ','a',' ','1'] ∧
+    findBlock Ex.grid.blocks ['#','0','0','0','1'] =
+      .ok ⟨['#','0','0','0','1'], some 2, some ⟨1, 1, -3/4⟩, false⟩ := by decide +kernel
+-- the layer stack of the example: l2 lies directly below l1
+example : Ex.geo.layerlist = [Ex.l0] ++ Ex.l1 :: Ex.l2 :: [] := by decide +kernel
 
 /-! ### volumes -/
 
@@ -253,12 +260,20 @@ theorem grid_vertical_distances_add_up (g : Geo) (m : BlockMap) (T : Grid) (hfre
   refine ⟨lower, upper, cu, by rw [hb0, hd, e0], by rw [hb1, hd2, e1], by rw [e0]; exact hcentre, hcu,
     by rw [← hcu, e1], hr0, hr1, by rw [hcuz]; exact hsum⟩
 
+-- hypotheses of `grid_vertical_distances_add_up` on the example: column b (surface 1) in layer 2 below layer 1
+example : Ex.colB ∈ layerCols Ex.geo Ex.l2 ∧ Ex.l2.top < Ex.colB.surface ∧
+    (match vertConn Ex.geo Ex.bmap Ex.grid.blocks (decide ([Ex.l0] = [])) Ex.l1 Ex.l2 Ex.colB with
+     | .ok (some c) => c.names == ([' ',' ','b',' ','2'], [' ',' ','b',' ','1']) && c.d0.coef + c.d1.coef == -1/2 - -2
+     | _ => false) = true := by decide +kernel
+
 /-! ### gravity cosines -/
 
 /-- `tilt_vector` of an untilted geometry (`gdcx`, `gdcy` each `None` or 0) is straight down. -/
 theorem untilted_tilt_vector (gx gy : Option Rat) (hx : gx = none ∨ gx = some 0)
     (hy : gy = none ∨ gy = some 0) : tiltVector? gx gy = some ⟨0, 0, -1⟩ :=
   Proofs.FromGeo.tilt_untilted gx gy hx hy
+
+example : tiltVector? none (some 0) = some ⟨0, 0, -1⟩ ∧ tiltVector? (some 1) (some 0) = some ⟨1, 0, 0⟩ := by decide +kernel
 
 /-- Every vertical connection is emitted (lower block, upper block) with permeability
     direction 3 and, in an untilted geometry, gravity cosine -1. -/
@@ -310,6 +325,10 @@ theorem gravity_cosine_truncated (g : Geo) (lay : Layer) (cola colb : Column)
   · show (1 / 2 : Rat) * (lay.bottom + cola.surface) < (1 / 2 : Rat) * (lay.bottom + lay.top)
     linarith [ha.2]
 
+-- the example: layer 1 (centre at its midpoint), column a truncated, column b a full block
+example : Ex.l1.name ≠ Ex.geo.layer0.name ∧ Ex.l1.centre = (1 / 2 : Rat) * (Ex.l1.bottom + Ex.l1.top) ∧
+    (Ex.l1.bottom < Ex.colA.surface ∧ Ex.colA.surface < Ex.l1.top) ∧ Ex.l1.top ≤ Ex.colB.surface := by decide +kernel
+
 /-! ### horizontal connections -/
 
 /-- Area is the shared-edge length times the lower of the two block heights
@@ -357,10 +376,14 @@ theorem perpendicular_is_shortest (a l0 l1 : P2) (hedge : l0 ≠ l1) :
       (cross (P2.sub l1 l0) (P2.sub a l0)) ^ 2 / P2.normSq (P2.sub l1 l0) :=
   ⟨Proofs.FromGeo.perp_shortest a l0 l1 hedge, Proofs.FromGeo.perp_dist_cross a l0 l1 hedge⟩
 
+-- a point at distance 3 from the line y = 0: no point of the line is closer
+example : lineProjection ⟨2, 3⟩ ⟨0, 0⟩ ⟨5, 0⟩ = ⟨2, 0⟩ ∧
+    P2.normSq (P2.sub (lineProjection ⟨2, 3⟩ ⟨0, 0⟩ ⟨5, 0⟩) ⟨2, 3⟩) = 9 := by decide +kernel
+
 -- the horizontal connection of the example: edge length 2, lower height 1/2 (the truncated block),
 -- distances 1 and 3/2, centres at -3/4 and -1/2 so the cosine is not zero
 example : ∃ c ∈ Ex.grid.conns, c.names = (['#','0','0','0','1'], [' ',' ','b',' ','1']) ∧
-    c.area = ⟨1/2, 4⟩ ∧ c.d0 = ⟨1, 1⟩ ∧ c.d1 = ⟨1, 9/4⟩ ∧ c.dircos.coef = -(1/4) := by decide +kernel
+    c.area = ⟨1/2, 4⟩ ∧ c.d0 = ⟨1, 1⟩ ∧ c.d1 = ⟨1, 9/4⟩ ∧ c.dircos.coef = -(1/4) ∧ c.dirn = 1 := by decide +kernel
 example : ∃ c ∈ Ex.grid.conns, c.names = ([' ',' ','a',' ','2'], ['#','0','0','0','1']) ∧
     c.dirn = 3 ∧ c.dircos = ⟨-1, 1⟩ ∧ c.d0.coef + c.d1.coef = -3/4 - -2 := by decide +kernel
 
